@@ -675,6 +675,10 @@ func (f *Frame) assumeWF(st *State, v Val) Val {
 				}
 				walk(u.Field(i).Type())
 			}
+		case *types.Tuple:
+			for i := 0; i < u.Len(); i++ {
+				walk(u.At(i).Type())
+			}
 		case *types.Pointer:
 			vc.fact(Imp(st.reach, And(Le(Zero, v.L[pos]), Lt(v.L[pos], st.alloc), kindIs(v.L[pos], kindOfPtr(t)))))
 			pos++
